@@ -14,6 +14,7 @@ import (
 	"path/filepath"
 	"strings"
 	"sync"
+	"sync/atomic"
 
 	"github.com/foxboron/go-uefi/authenticode"
 	"github.com/foxboron/go-uefi/pkcs7"
@@ -134,6 +135,9 @@ func getCertSetPad(ki, issuerClass int, serial *big.Int, pad int) *certSet {
 		return cs
 	}
 	k := keys.Get(ki)
+	if ki >= 100 { // 100, 101, 102: the odd-sized keys
+		k = keys.Odd()[(ki-100)%len(keys.Odd())]
+	}
 	ok := keys.Get(ki + 1)
 	tk := keys.Get(ki + 2)
 	iss := keys.IssuerName(issuerClass, fmt.Sprint(ki))
@@ -174,7 +178,17 @@ func (v libVerdict) String() string {
 	return "false"
 }
 
+// inputModified is set when a library call changed the bytes it was given to parse.
+var inputModified atomic.Value
+
 func libP7Verify(blob []byte, cert *x509.Certificate) (v libVerdict) {
+	keep := append([]byte(nil), blob...)
+	defer func() {
+		if !bytes.Equal(keep, blob) {
+			inputModified.Store(fmt.Sprintf("ParsePKCS7+Verify changed the caller's buffer (first difference at offset %d)", firstDiff(keep, blob)))
+			copy(blob, keep)
+		}
+	}()
 	v.Panic = tryP(func() {
 		p, err := pkcs7.ParsePKCS7(blob)
 		if err != nil {
@@ -268,7 +282,11 @@ func opensslSeeds(r *mon.Run, n int, withNoAttr bool) []p7seed {
 		if i%4 == 1 {
 			ser = new(big.Int).SetBytes(append([]byte{0x80 | byte(i)}, bytes.Repeat([]byte{byte(i)}, 11+i%8)...))
 		}
-		cs := getCertSet((i/3)%8, (i/2)%keys.NumIssuerClasses, ser)
+		ki := (i / 3) % 8
+		if i%9 == 5 {
+			ki = 100 + (i/9)%3
+		}
+		cs := getCertSet(ki, (i/2)%keys.NumIssuerClasses, ser)
 		sizes := []int{0, 1, 55, 56, 64, 65, 1024, 20000, 65536}
 		content := make([]byte, sizes[(i/len(osslVariants))%len(sizes)])
 		rng.Read(content)
@@ -356,4 +374,13 @@ func signAttrsWith(k *keys.Key, attrsContent []byte) []byte {
 		panic(err)
 	}
 	return sig
+}
+
+func firstDiff(a, b []byte) int {
+	for i := range a {
+		if i >= len(b) || a[i] != b[i] {
+			return i
+		}
+	}
+	return len(a)
 }
